@@ -208,3 +208,40 @@ package statsd
 //@   ensures  wfdCounters(a.metricMap.Counters) && wfdGauges(a.metricMap.Gauges) && wfdTimers(a.metricMap.Timers) && wfdSets(a.metricMap.Sets) && setsOK(a.metricMap)
 //@   ensures  a.metricMapsReceived == wrapu64(old(a.metricMapsReceived) + 1)
 //@   modifies everything
+
+// ---- cloud enrichment stage (C11) ------------------------------------------------------------------------
+// CloudInv: the parked state owned by CloudHandler.Run. The reported numbers of waiting hosts equal
+// the true numbers: one entry of awaitingMetrics per waiting source, one entry of awaitingEvents
+// (never empty) per source with waiting events.
+//@ pred CloudInv(ch *CloudHandler) := ch != nil && ch.awaitingMetrics != nil && ch.awaitingEvents != nil && ch.statsMetricHostsQueued == len(ch.awaitingMetrics) && ch.statsEventHostsQueued == len(ch.awaitingEvents) && (forall s gostatsd.Source :: s in ch.awaitingEvents ==> len(ch.awaitingEvents[s]) > 0) && (forall s gostatsd.Source :: s in ch.awaitingMetrics ==> ch.awaitingMetrics[s] != nil)
+// parked(ch, s): something is waiting for the lookup of s
+//@ pred parked(ch *CloudHandler, s gostatsd.Source) := s in ch.awaitingMetrics || s in ch.awaitingEvents
+
+// prepareMetricQueue: a lookup for source is requested exactly when nothing was parked for it.
+//@ func (*CloudHandler).prepareMetricQueue
+//@   requires CloudInv(ch)
+//@   ensures  CloudInv(ch) && result != nil && source in ch.awaitingMetrics && ch.awaitingMetrics[source] == result
+//@   ensures  [onelookup] old(parked(ch, source)) ==> len(ch.toLookupIPs) == old(len(ch.toLookupIPs))
+//@   ensures  [onelookup] !old(parked(ch, source)) ==> len(ch.toLookupIPs) == old(len(ch.toLookupIPs)) + 1 && ch.toLookupIPs[len(ch.toLookupIPs) - 1] == source
+//@   ensures  forall s gostatsd.Source :: s != source ==> (s in ch.awaitingMetrics) == old(s in ch.awaitingMetrics) && ch.awaitingMetrics[s] == old(ch.awaitingMetrics[s])
+//@   ensures  old(source in ch.awaitingMetrics) ==> result == old(ch.awaitingMetrics[source])
+//@   ensures  !old(source in ch.awaitingMetrics) ==> fresh(result)
+//@   modifies ch.toLookupIPs, ch.toLookupIPs[*], ch.statsMetricHostsQueued, ch.awaitingMetrics[*]
+
+//@ func (*CloudHandler).handleIncomingEvent
+//@   requires CloudInv(ch) && e != nil
+//@   ensures  CloudInv(ch) && e.Source in ch.awaitingEvents
+//@   ensures  [onelookup] old(parked(ch, e.Source)) ==> len(ch.toLookupIPs) == old(len(ch.toLookupIPs))
+//@   ensures  [onelookup] !old(parked(ch, e.Source)) ==> len(ch.toLookupIPs) == old(len(ch.toLookupIPs)) + 1 && ch.toLookupIPs[len(ch.toLookupIPs) - 1] == e.Source
+//@   ensures  len(ch.awaitingEvents[e.Source]) == old(len(ch.awaitingEvents[e.Source])) + 1 && ch.awaitingEvents[e.Source][len(ch.awaitingEvents[e.Source]) - 1] == e
+//@   ensures  ch.statsEventItemsQueued == wrapu64(old(ch.statsEventItemsQueued) + 1)
+//@   modifies ch.toLookupIPs, ch.toLookupIPs[*], ch.statsEventHostsQueued, ch.statsEventItemsQueued, ch.awaitingEvents[*], allElems(gostatsd.Events)
+
+// handleInstanceInfo: whatever was parked for the source leaves the parked state (handed to one
+// goroutine per kind); nothing else changes.
+//@ func (*CloudHandler).handleInstanceInfo
+//@   requires CloudInv(ch)
+//@   ensures  CloudInv(ch) && !parked(ch, info.IP)
+//@   ensures  forall s gostatsd.Source :: s != info.IP ==> (s in ch.awaitingMetrics) == old(s in ch.awaitingMetrics) && (s in ch.awaitingEvents) == old(s in ch.awaitingEvents)
+//@   ensures  ch.statsEventItemsQueued == wrapu64(old(ch.statsEventItemsQueued) - old(len(ch.awaitingEvents[info.IP])))
+//@   modifies ch.statsMetricHostsQueued, ch.statsEventHostsQueued, ch.statsEventItemsQueued, ch.awaitingMetrics[*], ch.awaitingEvents[*]
